@@ -7,3 +7,5 @@ NEXT Next
 CHECK_DEADLOCK FALSE
 VIEW View
 ACTION_CONSTRAINT Export
+INVARIANT NoCRLFStored
+PROPERTY RaisedIffDirty
